@@ -8,6 +8,8 @@ moves only the line-of-sight coordinate)."""
 import itertools
 import warnings
 
+import os
+
 import numpy as np
 
 from .. import core, hodref
@@ -109,6 +111,8 @@ def run_real(GH, case, Nthread, tracers=None, rsd=None):
 def compare_catalog(run, got, exp, desc, lbox, key_prefix='hod'):
     for t, E in exp.items():
         G = got[t]
+        if 'Ncent' not in G:
+            return run.violation(f'{key_prefix}-ncent-missing', dict(tracer=t, keys=sorted(G), **desc))
         if int(G['Ncent']) != E['Ncent']:
             return run.violation(f'{key_prefix}-ncent', dict(tracer=t, Ncent=int(G['Ncent']), expected=E['Ncent'], **desc))
         if len(G['id']) != len(E['id']):
@@ -232,17 +236,24 @@ def end_to_end(run, GH, ref):
     from . import c12
 
     rng = run.rng(77)
-    for k in range(3 if run.quick else 40):
+    for k in range(6 if run.quick else 60):
         nslab = int(rng.integers(1, 4))
         flags = dict(want_AB=bool(k % 2), want_shear=bool((k // 2) % 2), want_ranks=bool(k % 3 == 0), want_expvel=False)
         sub = SUBSETS[(k * 3 + 2) % 7]
         mt = any(t in sub for t in ('ELG', 'QSO'))
-        truth = c12.make_dir(rng, nslab, ['interleaved', 'random', 'increasing'][k % 3], flags['want_ranks'], mt, [int(rng.integers(30, 200)) for _ in range(nslab)], physical=True)
+        lc = k % 5 == 3  # halo light-cone catalogue: the observer position comes from the header and RSD is along the line of sight
+        to_disk = k % 4 == 1
+        reseed = (1234 + k) if k % 4 == 2 else None
+        if lc:
+            nslab = 1
+        truth = c12.make_dir(rng, nslab, ['interleaved', 'random', 'increasing'][k % 3], flags['want_ranks'], mt, [int(rng.integers(30, 200)) for _ in range(nslab)], physical=True, lc=lc)
         try:
             tracers = hodref.gen_tracers(rng, sub, fancy=bool(k % 2))
             sim_params = dict(sim_name=truth['sim'], sim_dir=truth['sim_dir'], subsample_dir=truth['subsample_dir'], z_mock=0.5, output_dir=truth['out'])
             HOD = dict(tracer_flags={t: (t in sub) for t in hodref.TR}, want_rsd=True, **{t + '_params': tracers.get(t, {}) for t in hodref.TR}, **flags)
-            desc = dict(end_to_end=True, case=k, nslab=nslab, tracers=list(sub), **flags)
+            if lc:
+                sim_params['halo_lc'] = True
+            desc = dict(end_to_end=True, case=k, nslab=nslab, tracers=list(sub), light_cone=lc, write_to_disk=to_disk, reseed=reseed, **flags)
             run.progress(desc)
             logging.disable(logging.CRITICAL)
             try:
@@ -251,12 +262,13 @@ def end_to_end(run, GH, ref):
                     with c12.stub_histogram(AH):
                         obj = AH.AbacusHOD(sim_params, HOD)
                     nt = int(rng.choice([1, 4, 16]))
-                    got = obj.run_hod(tracers=tracers, want_rsd=bool(k % 2), Nthread=nt)
+                    got = obj.run_hod(tracers=tracers, want_rsd=bool(k % 2), Nthread=nt, write_to_disk=to_disk, reseed=reseed, **(dict(fn_ext='_v%d' % k) if to_disk and k % 8 == 5 else {}))
             finally:
                 logging.disable(logging.NOTSET)
             run.ev()
             # parameters the constructor must hand to the kernels
-            if abs(obj.params['velz2kms'] - 1.3e5 / 2000.0) > 1e-9 or obj.params['Lbox'] != 2000.0 or obj.params['origin'] is not None:
+            origin_ok = (obj.params['origin'] is None) if not lc else (obj.params['origin'] is not None and np.array_equal(np.asarray(obj.params['origin'], dtype=float), [-990.0, -990.0, -990.0]))
+            if abs(obj.params['velz2kms'] - 1.3e5 / 2000.0) > 1e-9 or obj.params['Lbox'] != 2000.0 or not origin_ok:
                 run.violation('hod-e2e-params', dict(params={k2: repr(v) for k2, v in obj.params.items()}, **desc))
             exp, info = hodref.reference_catalog(ref, obj.halo_data, obj.particle_data, tracers, obj.params, flags['want_ranks'], bool(k % 2))
             if info['ambc'].any() or info['ambs'].any():
@@ -268,6 +280,25 @@ def end_to_end(run, GH, ref):
             run.count('end_to_end_cases')
             run.count('end_to_end_galaxies', ngal)
             compare_catalog(run, got, exp, dict(desc, Nthread=nt), 2000.0, key_prefix='hod-e2e')
+            if to_disk:
+                # the catalogue written for downstream tools is the catalogue returned
+                from astropy.io import ascii as _ascii
+
+                outdir = os.path.join(str(obj.mock_dir), 'galaxies' + ('_rsd' if k % 2 else '') + ('_v%d' % k if k % 8 == 5 else ''))
+                for t in got:
+                    fn = os.path.join(outdir, f'{t}s.dat')
+                    run.count('catalogue_files_read_back')
+                    if not os.path.exists(fn):
+                        run.violation('hod-e2e-file-missing', dict(file=os.path.relpath(fn, truth['root']), **desc))
+                        continue
+                    tab = _ascii.read(fn, format='ecsv')
+                    for c in ('x', 'y', 'z', 'vx', 'vy', 'vz', 'mass', 'id'):
+                        if c not in tab.colnames or not np.array_equal(np.asarray(tab[c]), np.asarray(got[t][c])):
+                            run.violation('hod-e2e-file-differs-from-returned', dict(tracer=t, column=c, rows_file=len(tab), rows_returned=len(got[t]['x']), **desc))
+                            break
+                    ncent_ret = exp[t]['Ncent'] if 'Ncent' in exp[t] else None
+                    if ncent_ret is not None and int(tab.meta.get('Ncent', -1)) != int(ncent_ret):
+                        run.violation('hod-e2e-file-differs-from-returned', dict(tracer=t, column='Ncent (meta)', file=int(tab.meta.get('Ncent', -1)), expected=int(ncent_ret), **desc))
         finally:
             shutil.rmtree(truth['root'], ignore_errors=True)
 
